@@ -28,6 +28,9 @@ theorem program_same (kind : Kind) (p : Pkt) (o : Outcome) (ops : List Op) (hk :
         simp only [Option.some.injEq] at hp; subst hp
         simp only [cellsOf, List.map_cons, List.map_nil, List.cons.injEq, and_true] at hs
         exact Or.inr ⟨outW 0, q, by simp [outW, maxW], hs, rfl⟩
+      | [], hp => simp only [Option.some.injEq] at hp; subst hp; exact Or.inl rfl
+      | none :: _, hp => simp only [Option.some.injEq] at hp; subst hp; exact Or.inl rfl
+      | some _ :: _ :: _, hp => simp only [Option.some.injEq] at hp; subst hp; exact Or.inl rfl
     | manyToOne _ =>
       simp only [program] at hp
       match qs, hp with
